@@ -534,7 +534,8 @@ def run(repo: Repo) -> Result:
     # ---- R2 accumulate, never overwrite
     check_merges(repo, res, interp, set(tails), final_dicts, parse_key, parse_where)
     # ---- R5 declarations with and without alias stay distinct
-    check_records(repo, res, interp, set(aliases), set(names), parse_key, parse_where)
+    implicit = sorted({line for line, _t, _h in dep_forms if decl_records(line)})
+    check_records(repo, res, interp, set(aliases), set(names), parse_key, parse_where, implicit[0] if implicit else None)
     # ---- R4 tags
     check_tags(repo, res, parser, error_cls, {lp.p.text for lp in lps}, parse_key, parse_where)
     return res
@@ -659,10 +660,12 @@ def fills_fresh_dict(e: A.Event, per_dict: dict) -> bool:
 
 
 # -------------------------------------------------------------------------------------------------------------------- R5
-def check_records(repo: Repo, res: Result, interp: A.Interp, aliases: set, names: set, parse_key: str, parse_where: str) -> None:
+def check_records(repo: Repo, res: Result, interp: A.Interp, aliases: set, names: set, parse_key: str, parse_where: str, implicit: str | None) -> None:
     if not aliases:
         return
     holders = 0
+    done: set[str] = set()
+    how = f"an arrow line such as `{implicit}` also matches the declaration pattern and declares its last component without alias" if implicit else "a component may be declared twice, once with and once without alias"
     for n in list(interp.nodes.values()):
         keyed: list[A.AV] = []
         if isinstance(n, A.Seq) and n.kind in ("set", "frozenset"):
@@ -680,8 +683,11 @@ def check_records(repo: Repo, res: Result, interp: A.Interp, aliases: set, names
                 holders += 1
                 ci = r.cls
                 construct = f"{ci.module.relpath}::{ci.name}::equality covers {', '.join(alias_fields)}"
+                if construct in done:
+                    continue
+                done.add(construct)
                 where_ = f"{ci.module.relpath}:{ci.node.lineno}"
-                verdict, why = record_equality(repo, ci, alias_fields)
+                verdict, why = record_equality(repo, ci, alias_fields, how)
                 if verdict is None:
                     res.undecide("C06.R5", construct, why, where_)
                 else:
@@ -690,7 +696,7 @@ def check_records(repo: Repo, res: Result, interp: A.Interp, aliases: set, names
         res.add("C06.R5", parse_key + "::declarations are not deduplicated by name", True, "declaration records (name, alias) are not elements of a set / keys of a dict: declarations of one component with and without alias cannot be merged", parse_where, nontrivial=False)
 
 
-def record_equality(repo: Repo, ci: ClassInfo, alias_fields: list[str]) -> tuple[bool | None, str]:
+def record_equality(repo: Repo, ci: ClassInfo, alias_fields: list[str], how: str) -> tuple[bool | None, str]:
     """Do two records that differ only in the alias compare unequal?"""
     for c in repo.mro(ci):
         eq = c.methods.get("__eq__")
@@ -700,7 +706,7 @@ def record_equality(repo: Repo, ci: ClassInfo, alias_fields: list[str]) -> tuple
                 return True, f"{c.name}.__eq__ reads {', '.join(alias_fields)}"
             if any(isinstance(x, ast.Call) and isinstance(x.func, ast.Name) and x.func.id in ("astuple", "asdict", "vars") for x in ast.walk(eq.node)) or any(isinstance(x, ast.Attribute) and x.attr == "__dict__" for x in ast.walk(eq.node)):
                 return True, f"{c.name}.__eq__ compares all fields"
-            return False, f"{c.name}.__eq__ ignores {', '.join(alias_fields)}: in a set the declaration `[n] as a` and the alias-free declaration of n (a bracketed name at the end of an arrow line also matches the declaration pattern) are one element, whichever comes first in the file survives - the alias is lost depending on line order"
+            return False, f"{c.name}.__eq__ ignores {', '.join(alias_fields)}: in a set the declaration `[n] as a` and an alias-free declaration of n ({how}) are one element, whichever comes first in the file survives - the alias is lost depending on line order"
     for c in repo.mro(ci):
         for d in c.node.decorator_list:
             if isinstance(d, ast.Call) and any(k.arg == "eq" and isinstance(k.value, ast.Constant) and k.value.value is False for k in d.keywords):
@@ -716,7 +722,7 @@ def record_equality(repo: Repo, ci: ClassInfo, alias_fields: list[str]) -> tuple
                 for k in dflt.keywords:
                     if k.arg == "compare":
                         if isinstance(k.value, ast.Constant) and k.value.value is False:
-                            return False, f"field `{f}` of {c.name} is excluded from equality and hash (compare=False): in a set the declaration `[n] as a` and the alias-free declaration of n (a bracketed name at the end of an arrow line also matches the declaration pattern) are one element, whichever comes first in the file survives - the alias is lost depending on line order"
+                            return False, f"field `{f}` of {c.name} is excluded from equality and hash (compare=False): in a set the declaration `[n] as a` and an alias-free declaration of n ({how}) are one element, whichever comes first in the file survives - the alias is lost depending on line order"
                         if not (isinstance(k.value, ast.Constant) and k.value.value is True):
                             return None, f"compare= of field `{f}` is not a literal"
     return True, f"generated equality of {ci.name} covers {', '.join(alias_fields)}: `[n] as a` and an alias-free declaration of n stay two elements"
